@@ -372,6 +372,21 @@ impl<'a, 'tcx> BodyCx<'a, 'tcx> {
                                     .to_string(),
                             ),
                         ));
+                        if rd != *did || inst.args != *args {
+                            let rp = self.tcx.predicates_of(rd).instantiate(self.tcx, inst.args);
+                            let mut rps = Vec::new();
+                            for (clause, _) in rp {
+                                let clause = clause.skip_norm_wip();
+                                if let Some(tp) = clause.as_trait_clause() {
+                                    let tp = tp.skip_binder();
+                                    rps.push(J::Arr(vec![
+                                        J::s(ty_str(tp.self_ty())),
+                                        J::s(def_str(self.tcx, tp.def_id())),
+                                    ]));
+                                }
+                            }
+                            f.push(("resolved_obligations", J::Arr(rps)));
+                        }
                         f.push((
                             "resolved_args",
                             J::Arr(
